@@ -56,6 +56,15 @@ CHECKS = {
             "Trusted: the harness's recording of verdicts and match lists; the generator's notion of 'references' and "
             "of global rules (side condition of the property).",
             "DESIGN.md section 2, C05"),
+    "C11": ("fault_enumeration",
+            "executable protocol model checked against recorded callback traces; exhaustive enumeration of interruption points",
+            "For every generated rule set and report-flag setting the recorded callback sequence of the real scanner "
+            "is compared with a small protocol model, and then every message position k is answered with abort and "
+            "with error (one scan per (k, answer)); return codes and the absence of further rule/module messages are "
+            "checked.",
+            "Trusted: the model in checks/c11.py (rule truths are known by construction). Not constrained: whether "
+            "SCAN_FINISHED follows an abort; abort answered to module messages.",
+            "DESIGN.md section 2, C11"),
 }
 
 NOT_YET = "check not built yet in this round (planned in DESIGN.md section 2); nothing is claimed for it"
